@@ -11,7 +11,7 @@ seeds="$@"
 head=$(git -C /repo rev-parse --short HEAD)
 for s in $seeds; do
   [ -f seeded/$s/patch.diff ] || continue
-  p=$(python3 -c "import json;print(json.load(open('seeded/$s/meta.json'))['property'].rstrip('A'))")
+  p=$(python3 -c "import json;print(json.load(open('seeded/$s/meta.json')).get('check_property') or json.load(open('seeded/$s/meta.json'))['property'].rstrip('A'))")
   wt=/tmp/seedr-$s-$$
   git -C /repo worktree add -q --detach $wt HEAD 2>/dev/null || { echo "$s $p WORKTREE-FAILED"; continue; }
   if ! git -C $wt apply --3way /verif/seeded/$s/patch.diff >/dev/null 2>&1 || [ -n "$(git -C $wt diff --name-only --diff-filter=U)" ]; then
